@@ -60,7 +60,8 @@ Section Ltv.
     rewrite (calc_price_ext cfg st) in Ei by reflexivity. rewrite (calc_price_ext cfg st) in Eo by reflexivity.
     cbn [iter_b upd_borrow b_in b_out b_int] in Ei, Eo.
     unfold holds_C08_ltv. cbn [borrows with_bank with_books]. rewrite zget_zset_same.
-    cbn [upd_borrow b_pair iter_b]. rewrite E1. unfold ltv_of. rewrite E10.
+    cbn [upd_borrow b_pair iter_b]. rewrite E1. unfold ltv_of.
+    match goal with G : zget (c_rates cfg) (pr_in _) = Some _ |- _ => rewrite G end.
     norm_price st.
     unfold debt_of. cbn [b_in b_out b_int upd_borrow]. rewrite <- Hasset, Ei.
     replace (b_out b + amt + dtrunc_int (b_int b + bi_int e)) with (b_out b + dtrunc_int (b_int b + bi_int e) + amt) by lia.
@@ -135,12 +136,14 @@ Section Ltv.
       eapply draw_ltv; [exact HG1|rewrite HP1; exact HP|exact H].
     - apply open_borrow_spec in H as (Hc & Hpr & _ & Hb). rewrite Hc. split; [reflexivity|].
       repeat match goal with u : unit |- _ => destruct u end.
-      unfold holds_C08_ltv_new. rewrite Hb. cbn [b_pair]. rewrite E1. destruct (pr_inter p); [discriminate|]. rewrite andb_true_r.
+      unfold holds_C08_ltv_new. rewrite Hb. cbn [b_pair].
+      match goal with G : zget (c_pairs cfg) pid = Some _ |- _ => rewrite G end. destruct (pr_inter p); [discriminate|]. rewrite andb_true_r.
       eapply (plain_from_verify st st' _ _ p r l HP Hpr Hb); cbn [b_pair b_in]; try eassumption; try lia.
       unfold debt_of. cbn [b_out b_int]. rewrite dtrunc_int_0, Z.add_0_r. assumption.
     - apply open_borrow_spec in H as (Hc & Hpr & _ & Hb). rewrite Hc. split; [reflexivity|].
       repeat match goal with u : unit |- _ => destruct u end.
-      unfold holds_C08_ltv_new. rewrite Hb. cbn [b_pair]. rewrite E1. destruct (pr_inter p); [|discriminate].
+      unfold holds_C08_ltv_new. rewrite Hb. cbn [b_pair].
+      match goal with G : zget (c_pairs cfg) pid = Some _ |- _ => rewrite G end. destruct (pr_inter p); [|discriminate].
       apply andb_true_intro. split.
       + eapply (plain_from_verify st st' _ _ p r l HP Hpr Hb); cbn [b_pair b_in]; try eassumption; try lia.
         unfold debt_of. cbn [b_out b_int]. rewrite dtrunc_int_0, Z.add_0_r. assumption.
@@ -152,7 +155,8 @@ Section Ltv.
         * unfold debt_of. cbn [b_out b_int]. rewrite dtrunc_int_0, Z.add_0_r. assumption.
     - apply open_borrow_spec in H as (Hc & Hpr & _ & Hb). rewrite Hc. split; [reflexivity|].
       repeat match goal with u : unit |- _ => destruct u end.
-      unfold holds_C08_ltv_new. rewrite Hb. cbn [b_pair]. rewrite E1. destruct (pr_inter p); [|discriminate].
+      unfold holds_C08_ltv_new. rewrite Hb. cbn [b_pair].
+      match goal with G : zget (c_pairs cfg) pid = Some _ |- _ => rewrite G end. destruct (pr_inter p); [|discriminate].
       apply andb_true_intro. split.
       + eapply (plain_from_verify st st' _ _ p r l HP Hpr Hb); cbn [b_pair b_in]; try eassumption; try lia.
         unfold debt_of. cbn [b_out b_int]. rewrite dtrunc_int_0, Z.add_0_r. assumption.
